@@ -51,8 +51,24 @@ def main() -> int:
     for c in req['cases']:
         codegen.load(c['spec'])
         charts.append((c['id'], codegen.chart(c['spec'], {'events': False})))
-    setup_registry(req['state'])
+    state = req['state']
+    seq = state.startswith('run-then-')
+    setup_registry('both' if seq else state)
     out = []
+    if seq:
+        # history on ONE chart/DAG object: a successful run with both pools, then the pool goes away, then the same object runs again
+        from ml_pipeline_engine.parallelism import process_pool_registry as PR
+        from ml_pipeline_engine.parallelism import threads_pool_registry as TR
+        for cid, chart in charts:
+            W.CUR = W.World([{}], {}, gate_async=False)
+            try:
+                asyncio.run(run_one(chart))
+            except BaseException:  # noqa: BLE001
+                pass
+        if state == 'run-then-thread-shutdown':
+            TR._pool_executor.shutdown()
+        else:
+            PR._pool_executor.shutdown()
     for cid, chart in charts:
         open(log.name, 'w').close()
         W.CUR = W.World([{}], {}, gate_async=False)
